@@ -227,15 +227,18 @@ def obligations(tier: str) -> List[dict]:
     else:
         OPS2 = [(0, 0), (0, 1), (1, 0), (1, 1), (1, 2)]
         for m in ('amr', 'custom'):
+            add('h_tree', 'tree', 600, ['reified'], model=m, n=1,
+                small=False)
+            for op in (0, 1):
+                add('h_tree', 'tree', 1800, model=m, n=2, small=False,
+                    i0_op=op)
             for ops in OPS2:
-                for r0 in range(5):
-                    add('h_tree', 'tree', 3000, model=m, n=3, small=False,
-                        i0_op=ops[0], i1_op=ops[1], i0_r=r0)
-                for op2 in (0, 1, 2):
-                    if ops == (0, 0) and op2 == 2:
-                        continue
-                    add('h_tree', 'tree', 3000, model=m, n=4, small=True,
-                        i0_op=ops[0], i1_op=ops[1], i2_op=op2)
+                add('h_tree', 'tree', 1800, model=m, n=3, small=True,
+                    i0_op=ops[0], i1_op=ops[1])
+        for ops in OPS2:
+            for r0 in range(5):
+                add('h_tree', 'tree', 1800, model='amr', n=3, small=False,
+                    i0_op=ops[0], i1_op=ops[1], i0_r=r0)
     return obs
 
 
